@@ -1,6 +1,6 @@
 #!/bin/bash
 # try_seed.sh <patch.diff> <tier> <check ids...> : apply a seeded change to /repo, run checks, undo it.
-P="$1"; TIER="$2"; shift 2
+P="$(readlink -f "$1")"; TIER="$2"; shift 2
 # serialise against every other user of /repo's working tree
 exec 9>/tmp/verif_repo.lock; flock 9; export VERIF_HAVE_REPO_LOCK=1
 cd /repo || exit 2
